@@ -98,9 +98,13 @@ CLAIMED["C05"] = ("§0.6 / §4 C05",
     "Narrow: decides the shape of the final verdicts only — a 'field not allowed' error is produced only for present arcs that are neither hidden/definition/let nor supported by evidence, every arc failing both tests is reported before the next arc and the combined error is attached, and final validation reports every arc still ArcRequired. It does NOT decide which conjuncts provide evidence for which field (defID containment, replacement sets, pattern matching), which is the run-time core of the property.",
     "evidence bookkeeping is value-level and not decided")
 
+CLAIMED["C04"] = ("§0.6 / §4 C04",
+    "constant folding of the default-mode enum and of the mode()/combineDefault tables (finite domain, comparisons only), tagged-switch reachability on the Default selectors",
+    "Narrow: decides the finite skeleton of default bookkeeping — the mode lattice maybeDefault < isDefault < notDefault with combineDefault as its maximum, the mark table of mode(), that a single disjunct is returned as the default only when NumDefaults == 1 (several defaults stay a disjunction, none returns the value itself), and that NumDefaults counts exactly the surviving isDefault disjuncts. It does NOT decide the cross product, duplicate elimination or which disjuncts survive, which is the run-time core of the property.",
+    "cross product and elimination of disjuncts are value-level and not decided")
+
 # properties not claimed (yet) -> reason
 NOT_APPLICABLE = {
-    "C04": "value-level: default selection is mode arithmetic across a run-time cross product of disjuncts; not decidable from code shape (DESIGN.md §4)",
     "C13": "semantic equivalence of two schema languages on all instances; no structural necessary condition in reach (DESIGN.md §4)",
 }
 
